@@ -18,7 +18,18 @@ const CONFIGS: [(&str, &str, &str); 5] = [("c0", "{}", "American"), ("c1", r#"{"
     ("c2", r#"{"SpellCheck":false}"#, "American"), ("c3", "{}", "British"),
     ("c4", r#"{"SentenceCapitalization":false,"SpelledNumbers":false}"#, "American")];
 
-fn text_of(id: &str) -> &'static str { TEXTS.iter().find(|t| t.0 == id).map(|t| t.1).unwrap_or("") }
+/// "L": a document of more than 120 000 characters (text A over and over)
+fn text_of(id: &str) -> String {
+    if id == "L" { return format!("{}\n", TEXTS[0].1).repeat(3400); }
+    TEXTS.iter().find(|t| t.0 == id).map(|t| t.1.to_string()).unwrap_or_default()
+}
+const LANGS: [&str; 4] = ["plaintext", "markdown", "plaintext", "rust"];
+/// what the client sends for a text id in a document of the given language: the Rust document puts the
+/// prose into comments around an identifier that also occurs in the prose (the identifier dictionary)
+fn text_for(lang: &str, id: &str) -> String {
+    let t = text_of(id);
+    if lang == "rust" { format!("// {} and foo_barq too\nfn foo_barq(zq_arg: u8) -> u8 {{ zq_arg }}\n// zq_arg again\n", t.replace('\n', "\n// ")) } else { t }
+}
 fn diag_digest(diags: &Value) -> String {
     let mut v: Vec<String> = diags.as_array().map(|a| a.iter().map(|d| format!("{}|{}", d["range"], d["message"])).collect()).unwrap_or_default();
     v.sort();
@@ -34,11 +45,13 @@ fn reference_table(dir: &std::path::Path) -> RefTable {
         let mut ls = Ls::new(&d);
         ls.settings = crate::ls::settings_for(&d, serde_json::from_str(linters).unwrap(), dialect);
         ls.initialize();
-        for (li, lang) in ["plaintext", "markdown"].iter().enumerate() {
-            for (ti, (tid, text, _)) in TEXTS.iter().enumerate() {
+        for (li, lang) in ["plaintext", "markdown", "rust"].iter().enumerate() {
+            for (ti, tid) in ["A", "B", "C", "D", "L"].iter().enumerate() {
+                if *tid == "L" && (*lang != "plaintext" || !["c0", "c2"].contains(cid)) { continue; }
+                let text = &text_for(lang, tid);
                 let uri = format!("untitled:ref-{li}-{ti}");
                 let h = ls.did_open(&uri, lang, text);
-                ls.run_to_completion(h, Duration::from_secs(30));
+                ls.run_to_completion(h, Duration::from_secs(120));
                 let dg = ls.last_publish(&uri).cloned().unwrap_or(json!([]));
                 tab.entry((lang.to_string(), diag_digest(&dg))).or_default().push(json!({"t": tid, "c": cid}));
             }
@@ -64,15 +77,17 @@ impl<'a> Sess<'a> {
         let p2 = dir.join("two.md");
         std::fs::write(&p1, "").unwrap();
         std::fs::write(&p2, "").unwrap();
-        let urls = vec![format!("file://{}", p1.to_string_lossy()), format!("file://{}", p2.to_string_lossy()), "untitled:Untitled-1".to_string()];
+        let p4 = dir.join("four.rs");
+        std::fs::write(&p4, "").unwrap();
+        let urls = vec![format!("file://{}", p1.to_string_lossy()), format!("file://{}", p2.to_string_lossy()), "untitled:Untitled-1".to_string(), format!("file://{}", p4.to_string_lossy())];
         let mut ls = Ls::new(&dir);
         ls.initialize();
-        Self { ls, dir, urls, paths: vec![Some(p1), Some(p2), None], evs: vec![json!({"ev": "Reset"})], seq: 0, client: vec![String::new(); 3], tab, ncfg: 0 }
+        Self { ls, dir, urls, paths: vec![Some(p1), Some(p2), None, Some(p4)], evs: vec![json!({"ev": "Reset"})], seq: 0, client: vec![String::new(); 4], tab, ncfg: 0 }
     }
     fn submit(&mut self, m: &Msg) -> usize {
         self.seq += 1;
         let url = self.urls[m.url].clone();
-        let lang = if m.url == 1 { "markdown" } else { "plaintext" };
+        let lang = LANGS[m.url];
         if m.kind == "open" || m.kind == "change" { self.client[m.url] = m.text.clone(); }
         let shown = if m.kind == "open" || m.kind == "change" { m.text.clone() } else { self.client[m.url].clone() };
         // a configuration change takes the configuration named in the message, or the next one of a fixed walk
@@ -85,11 +100,11 @@ impl<'a> Sess<'a> {
         } else { "" };
         self.evs.push(json!({"ev": "Recv", "seq": self.seq, "kind": m.kind, "url": m.url, "text": shown, "cfg": cfg}));
         match m.kind.as_str() {
-            "open" => self.ls.did_open(&url, lang, text_of(&m.text)),
-            "change" => self.ls.did_change(&url, self.seq as i64 + 1, text_of(&m.text)),
+            "open" => self.ls.did_open(&url, lang, &text_for(lang, &m.text)),
+            "change" => self.ls.did_change(&url, self.seq as i64 + 1, &text_for(lang, &m.text)),
             "save" => {
                 // the editor writes the buffer to disk, then notifies
-                if let Some(p) = &self.paths[m.url] { std::fs::write(p, text_of(&self.client[m.url])).unwrap(); }
+                if let Some(p) = &self.paths[m.url] { std::fs::write(p, text_for(lang, &self.client[m.url])).unwrap(); }
                 self.ls.did_save(&url)
             }
             "close" => self.ls.did_close(&url),
@@ -104,7 +119,7 @@ impl<'a> Sess<'a> {
         for i in from..self.ls.publishes.len() {
             let (u, d, h) = self.ls.publishes[i].clone();
             let ui = self.urls.iter().position(|x| *x == u).map(|x| x as i64).unwrap_or(-1);
-            let lang = if ui == 1 { "markdown" } else { "plaintext" };
+            let lang = if ui >= 0 { LANGS[ui as usize] } else { "plaintext" };
             self.evs.push(json!({"ev": "Pub", "url": ui, "ids": identify(&d, lang, self.tab), "n": d.as_array().map(|a| a.len()).unwrap_or(0), "handler": self.ls.handlers[h].label}));
         }
     }
@@ -168,7 +183,7 @@ pub fn main(a: &Args) {
         };
         // (1) sequential histories over all message kinds (saved and unsaved buffers)
         let kinds = ["change", "save", "close", "adduser", "addfile", "config", "delete"];
-        for u in 0..3usize {
+        for u in 0..4usize {
             for k1 in kinds {
                 for k2 in kinds {
                     if (u == 2) && (k1 == "save" || k2 == "save" || k1 == "delete" || k2 == "delete") { continue; }
@@ -188,7 +203,7 @@ pub fn main(a: &Args) {
         }
         // (1b) a document comes back: closed or deleted, then opened again with the same or another text,
         // and texts that return to an earlier one (the diagnostics repeat)
-        for u in 0..3usize {
+        for u in 0..4usize {
             for closer in ["close", "delete"] {
                 if u == 2 && closer == "delete" { continue; }
                 for (t1, t2) in [("A", "A"), ("A", "B")] {
@@ -200,7 +215,13 @@ pub fn main(a: &Args) {
         }
         // (1d) configuration walks: every ordered pair of configurations around an edit, then back to the default
         // (an override that is set and later removed; a dialect switch and back)
-        for u in 0..3usize {
+        // (1e) a very long document: open short, grow long, shrink again; open long; configuration change while long
+        for u in [0usize, 2].into_iter().take(a.num("long-docs", 1) as usize) {
+            run(&[m("open", u, "A"), m("change", u, "L"), m("change", u, "B")], &[], &[], &[], &mut out);
+            run(&[m("open", u, "L"), m("change", u, "A")], &[], &[], &[], &mut out);
+            run(&[m("open", u, "A"), m("change", u, "L"), m("config", u, "c2"), m("config", u, "c0")], &[], &[], &[], &mut out);
+        }
+        for u in 0..4usize {
             for ci in 1..CONFIGS.len() {
                 for cj in 0..CONFIGS.len() {
                     if ci == cj || (u + ci + cj) % 3 != 0 && u != 0 { continue; }
@@ -210,10 +231,10 @@ pub fn main(a: &Args) {
         }
         // (1c) random protocol-conforming sequential sessions over two texts only, so that states repeat
         for _ in 0..a.num("random-seq", 25) {
-            let mut open = [false; 3];
+            let mut open = [false; 4];
             let mut hist: Vec<Msg> = Vec::new();
             for _ in 0..rng.range(5, 10) {
-                let u = rng.below(3);
+                let u = rng.below(4);
                 let t = ["A", "B"][rng.below(2)];
                 let kind = if !open[u] { "open" } else { kinds[rng.below(kinds.len())] };
                 if u == 2 && (kind == "save" || kind == "delete") { continue; }
